@@ -78,6 +78,16 @@ CHECKS = {
         "accepted), re-render (must equal), run original and reloaded in fresh contexts and compare output, error, returned value and final variables.",
    note="trusted: harness reproduces the save rendering of apps/cli_parser.cpp; texts whose output is not a function of the text (random, getsys, getenv) are excluded",
    design="4/C12"),
+ "C13": dict(
+   technique="differential runtime monitor on the real scanner: token streams / compiled text / output under fragmented delivery vs whole-line delivery + ASan/UBSan",
+   text="For generated programs, the repository's texts and lexeme-rich statements (two-character operators, string escapes and doubled quotes, block/"
+        "line/# comments, exponents, hex, long identifiers, '$' names, members, @rank): the token stream obtained through the public interactive parser "
+        "is compared between whole-line delivery and a custom StreamReader cutting at every single byte position, at random multi-splits and at fixed "
+        "fragment sizes (1..2048); compiled programs are compared (acceptance, error position, unparse text, output) for sampled deliveries; every "
+        "lexeme kind is slid across offsets 1010..1031 of a long line (the scanner's 1023-byte read) with padding and with statement filler, the long "
+        "line is compared with the one-statement-per-line layout of the same tokens, and CRLF vs LF through the built-in reader.",
+   note="trusted: the custom reader strips CR like the built-in readers; the committed generated scanner lex._tokenizer.c is what is observed",
+   design="4/C13"),
  "C06": dict(
    technique="reference-interpreter monitor (python model of the documented loop/conditional semantics) over generated programs + post-run invariant hooks (control stack, symbol flags) + ASan/UBSan",
    text="Loop headers are enumerated bounded-exhaustively (bounds in {-2..2, INT64_MIN..+2, INT64_MAX-2.., null} x steps {absent,1,2,3,0,-1,null,INT64_MAX} x "
